@@ -22,7 +22,7 @@ def if_then_else(cond, truev, falsev):
         raise RuntimeError("Wrong type for if_then_else condition")
 
     if callable(truev): truev = guarded(cond)(truev)()
-    if callable(falsev): falsev = guarded(-cond)(falsev)()        
+    if callable(falsev): falsev = guarded(~cond)(falsev)()
 
     if isinstance(truev, list):
         return [if_then_else(cond, truevi, falsevi) for (truevi,falsevi) in zip(truev,falsev)]
@@ -90,7 +90,7 @@ class BranchContext:
 
 class IfContext(BranchContext):
     def __init__(self, cond, ctx):
-        self.icond = 1-cond # should be before super().__init__ because may be guarded
+        self.icond = ~cond # should be before super().__init__ because may be guarded
         super().__init__(cond, ctx)
         
     def _elif(self, nwcond):
@@ -99,7 +99,7 @@ class IfContext(BranchContext):
             
         self.exit()
         nwcond = nwcond()
-        nwicond = self.icond&(1-nwcond) # need to calculate before entering guard
+        nwicond = self.icond&(~nwcond) # need to calculate before entering guard
         self.enter(self.icond&nwcond)
         self.icond = nwicond
         
@@ -177,7 +177,7 @@ def _endwhile(ctx=None):
     getcontext(ctx).stack.pop().end()
     
 def _breakif(cond,ctx=None):
-    getcontext(ctx).stack[-1]._while(1-cond)
+    getcontext(ctx).stack[-1]._while(~cond)
 
 class ObliviousIterator():
     def __init__(self, start, stop, max, ctx, checkstopmax):
@@ -201,7 +201,7 @@ class ObliviousIterator():
                 return self.ix
             else:
                 if self.checkstopmax:
-                    (self.ctx.stack[-1].cond&(self.ix!=self.stop)).assert_zero("stop exceeds max")
+                    (self.ctx.stack[-1].cond&(self.ix!=self.stop)).lc.assert_zero("stop exceeds max")
                 raise StopIteration
 #        if self.ix==self.max:
             # make sure that ix was not >max
